@@ -15,7 +15,7 @@ open Numqi Numqi.Ent Numqi.Ent.Thresholds Real
 noncomputable instance : SqrtLog ℝ := ⟨Real.sqrt, Real.log⟩
 
 /-- the translator recognised the structure of both closed forms -/
-theorem guards_recognised : eofRecognised = true ∧ gmeRecognised = true := by decide
+theorem guards_recognised : eofRecognised = true ∧ gmeRecognised = true ∧ concPureRecognised = true := by decide
 
 /-! ### totality: no `log` of a non-positive number, no `sqrt` of a negative number, on any branch -/
 
@@ -28,6 +28,12 @@ theorem eof_sqrtArg_nonneg (c : ℝ) : 0 ≤ sqrtArg eofClampSqrtArg c := by
 /-- **`get_gme_2qubit`: the argument of `np.sqrt` is `≥ 0` for every real `c`** -/
 theorem gme_guard_total (c : ℝ) : 0 ≤ sqrtArg gmeClampSqrtArg c := by
   simp only [sqrtArg, gmeClampSqrtArg, if_true, pyMax0]
+  split_ifs with h <;> linarith
+
+/-- **`get_concurrence_pure`: the argument of `np.sqrt` is `≥ 0` for every value of the radicand** — the purity of the
+reduced state of a product state rounds to `1+ulp` for ~40 % of them. -/
+theorem concPure_guard_total (x : ℝ) : 0 ≤ concPureSqrtArg x := by
+  simp only [concPureSqrtArg, concPureClampSqrtArg, if_true, pyMax0]
   split_ifs with h <;> linarith
 
 /-- `tmp1 ∈ [1/2, 1]` for every real `c` (exact arithmetic; correctly rounded `sqrt`, `+`, `/2` preserve the interval) -/
